@@ -1021,6 +1021,33 @@ struct Gen
 		std::vector<Spec> bound;
 		for(int c = 0; c < ncl; c++)
 			bound.push_back(random_spec((int) r.pick(std::vector<long long>{0, 1, 2, 2, 3, 4, 4, 5, 6, 6, 7, 8}), false));
+		if(r.chance(0.06))
+		{
+			// argument churn: 140-300 distinct parameter sets of one cheap sampler, then repeats of earlier ones, each repeat also
+			// compared with a pristine process - anything memoised per argument with a bounded table gets filled and flushed
+			int kind = (int) r.pick(std::vector<long long>{2, 2, 2, 0, 1});
+			int nd	 = (int) r.irange(140, 300);
+			std::vector<Spec> used;
+			static const std::vector<long long> SEEDS0 = {0, 1, 5489, 4294967295ll};
+			p.ops.push_back(Op("seed", {r.chance(0.5) ? r.pick(SEEDS0) : (long long) (r.next() & 0xffffffffu)}));
+			for(int k = 0; k < nd; k++)
+			{
+				Spec s = random_spec(kind, false);
+				if(kind == 2)
+					s.p = {r.chance(0.8) ? r.logrange(0.01, 499) : r.logrange(500, 1500)};
+				used.push_back(s);
+				p.ops.push_back(spec_op(s));
+			}
+			for(int k = 0; k < 40; k++)
+			{
+				Spec s	   = used[r.below(used.size())];
+				s.pristine = 1;
+				p.ops.push_back(spec_op(s));
+				if(r.chance(0.5))
+					p.ops.push_back(spec_op(s));
+			}
+			return p;
+		}
 		bool slow_client = r.chance(0.08);
 		if(slow_client)
 		{
